@@ -49,10 +49,15 @@ fn mk_block(height: u64) -> Block {
     Block::new(header, vec![])
 }
 
+/// `snapshot_trailing_logs` of the nodes the harness creates (100 = the default: no compaction of the
+/// short logs of most streams; the `compact` stream sets 0..2)
+static TRAILING: std::sync::atomic::AtomicUsize = std::sync::atomic::AtomicUsize::new(100);
+
 fn cfg() -> RaftConfig {
     let mut c = RaftConfig::default();
     c.enable_geometric_tiebreak = false;
     c.auto_heartbeat = false;
+    c.snapshot_trailing_logs = TRAILING.load(std::sync::atomic::Ordering::Relaxed);
     c
 }
 
@@ -185,9 +190,41 @@ fn err_class(s: &str) -> &'static str {
 
 type Ent = (u64, u64, u64); // index, term, cmd
 
+/// the node's in-memory log (after `truncate_log`: the part beyond `log_base_index`)
 fn node_log(n: &RaftNode) -> Vec<Ent> {
     let (_, _, es, _) = n.get_entries_for_follower(&"zz".to_string());
-    es.iter().map(|e| (e.index, e.term, e.block.header.height)).collect()
+    if es.len() == n.log_length() {
+        return es.iter().map(|e| (e.index, e.term, e.block.header.height)).collect();
+    }
+    // compacted (`get_entries_for_follower` cannot start at index 1 any more): terms and payloads from the
+    // verification hook, indices counted back from the last one
+    let d = n.verif_dump();
+    let toks: Vec<(u64, u64)> = d
+        .split(' ')
+        .find_map(|f| f.strip_prefix("log="))
+        .filter(|l| *l != "-")
+        .map(|l| {
+            l.split(',')
+                .filter_map(|x| {
+                    let mut p = x.split(':');
+                    Some((p.next()?.parse().ok()?, p.next()?.parse().ok()?))
+                })
+                .collect()
+        })
+        .unwrap_or_default();
+    let last = n.last_log_index();
+    let len = toks.len() as u64;
+    toks.iter().enumerate().map(|(i, (t, c))| (last + 1 + i as u64 - len, *t, *c)).collect()
+}
+
+/// entry with logical index `idx` of an in-memory log (which may start beyond index 1 after compaction)
+fn at(log: &[Ent], idx: u64) -> Option<Ent> {
+    log.iter().find(|e| e.0 == idx).copied()
+}
+
+/// `log_base_index` as far as it shows: index of the first in-memory entry - 1
+fn base_tok(log: &[Ent]) -> String {
+    format!("b={}", log.first().map_or(0, |e| e.0.saturating_sub(1)))
 }
 
 fn role_tok(n: &RaftNode) -> &'static str {
@@ -255,6 +292,8 @@ enum Ev {
     PreVote { t: u64, c: u64, li: u64, lt: u64 },
     Pvr { from: u64, t: u64, g: bool },
     TNow { from: u64, t: u64, l: u64 },
+    /// `truncate_log` with a snapshot at index `i` (log compaction: in memory only)
+    Compact { i: u64 },
     Lead,
     Ae { t: u64, l: u64, pi: u64, pt: u64, ents: Vec<(u64, u64)> },
     Aer { t: u64 },
@@ -277,6 +316,7 @@ impl Ev {
             Ev::PreVote { t, c, li, lt } => format!("ev pv {t} {c} {li} {lt}"),
             Ev::Pvr { from, t, g } => format!("ev pvr {from} {t} {}", u8::from(*g)),
             Ev::TNow { from, t, l } => format!("ev tnow {from} {t} {l}"),
+            Ev::Compact { i } => format!("ev compact {i}"),
             Ev::Lead => "ev lead".into(),
             Ev::Ae { t, l, pi, pt, ents } => format!("ev ae {t} {l} {pi} {pt} {}", pairs_tok(ents)),
             Ev::Aer { t } => format!("ev aer {t}"),
@@ -293,6 +333,7 @@ impl Ev {
             Ev::PreVote { .. } => "pre_vote",
             Ev::Pvr { .. } => "prevote_response",
             Ev::TNow { .. } => "timeout_now",
+            Ev::Compact { .. } => "compact",
             Ev::Lead => "become_leader",
             Ev::Ae { .. } => "append_entries",
             Ev::Aer { .. } => "append_response",
@@ -416,6 +457,14 @@ fn apply_real(lv: &mut Live, ev: &Ev) -> String {
             n.handle_message(&nid(*from), &Message::TimeoutNow(tn));
             "none".into()
         }
+        Ev::Compact { i } => {
+            let peers: Vec<String> = (1..=NPEERS).map(nid).collect();
+            let meta = SnapshotMetadata::new(*i, 0, [0u8; 32], peers, 0);
+            match n.truncate_log(&meta) {
+                Ok(()) => "none".into(),
+                Err(e) => format!("err:{e}"),
+            }
+        }
         Ev::Lead => {
             n.become_leader();
             "none".into()
@@ -528,7 +577,7 @@ fn apply_real(lv: &mut Live, ev: &Ev) -> String {
 
 /// a snapshot as some leader could send it, relative to the follower's current log
 fn gen_snap(r: &mut Rng, cur: u64, log: &[Ent]) -> Ev {
-    let len = log.len() as u64;
+    let len = log.last().map_or(0, |e| e.0);
     let n = match r.below(20) {
         0 => 0,
         1..=7 if len > 1 => 1 + r.below(len - 1), // local suffix beyond the snapshot index
@@ -539,7 +588,7 @@ fn gen_snap(r: &mut Rng, cur: u64, log: &[Ent]) -> Ev {
     let mut conflict = false;
     let mut prev_t = 0u64;
     for idx in 1..=n {
-        let existing = log.get((idx - 1) as usize).copied();
+        let existing = at(log, idx);
         match existing {
             Some(e) if !conflict && e.1 >= prev_t && r.chance(4, 5) => {
                 ents.push((e.1, e.2));
@@ -611,7 +660,7 @@ fn gen_event(r: &mut Rng, lv: &Live) -> Ev {
     let n = &lv.node;
     let cur = n.current_term();
     let log = node_log(n);
-    let len = log.len() as u64;
+    let len = log.last().map_or(0, |e| e.0);
     let role = n.state();
     let term_near = |r: &mut Rng| -> u64 {
         match r.below(10) {
@@ -621,6 +670,11 @@ fn gen_event(r: &mut Rng, lv: &Live) -> Ev {
             _ => cur + 2 + r.below(3),
         }
     };
+    if TRAILING.load(std::sync::atomic::Ordering::Relaxed) < 50 && len >= 2 && r.chance(1, 9) {
+        // the snapshot index need not be inside the log (truncate_log does not check)
+        let last = log.last().map_or(0, |e| e.0);
+        return Ev::Compact { i: r.below(last + 2) };
+    }
     if role == RaftState::Candidate && r.chance(2, 5) {
         return Ev::Lead;
     }
@@ -667,7 +721,7 @@ fn gen_event(r: &mut Rng, lv: &Live) -> Ev {
                     _ => r.below(len + 1),
                 };
                 let pt = if pi >= 1 && pi <= len {
-                    let real = log[(pi - 1) as usize].1;
+                    let real = at(&log, pi).map_or(1 + r.below(cur + 1), |e| e.1);
                     if r.chance(1, 8) {
                         real + 1
                     } else {
@@ -687,7 +741,7 @@ fn gen_event(r: &mut Rng, lv: &Live) -> Ev {
                 let mut conflict_started = false;
                 for j in 0..k {
                     let idx = pi + 1 + j;
-                    let existing = if idx <= len { Some(log[(idx - 1) as usize]) } else { None };
+                    let existing = if idx <= len { at(&log, idx) } else { None };
                     let et = match existing {
                         Some(e) if !conflict_started && r.chance(3, 5) => e.1,
                         _ => {
@@ -804,7 +858,7 @@ fn is_slow_fail(ev: &Ev, lv: &Live) -> bool {
         Ev::Rvr { t, .. } => *t > cur && lv.node.state() == RaftState::Candidate,
         Ev::Pvr { t, g, .. } => in_pre_vote(&lv.node) && (*t > cur || (*g && *t == cur)),
         Ev::TNow { t, .. } => *t == cur,
-        Ev::PreStart | Ev::PreVote { .. } => false,
+        Ev::PreStart | Ev::PreVote { .. } | Ev::Compact { .. } => false,
         Ev::Aer { t } => *t > cur && lv.node.state() == RaftState::Leader,
         Ev::Ae { t, .. } => *t > cur,
         Ev::Snap { lt, .. } => *lt > cur,
@@ -817,15 +871,15 @@ fn is_slow_fail(ev: &Ev, lv: &Live) -> bool {
 fn gen_ae_same_term(r: &mut Rng, lv: &Live) -> Ev {
     let cur = lv.node.current_term().max(1);
     let log = node_log(&lv.node);
-    let len = log.len() as u64;
+    let len = log.last().map_or(0, |e| e.0);
     let pi = if r.chance(3, 5) { len } else { r.below(len + 1) };
-    let pt = if pi >= 1 && pi <= len { log[(pi - 1) as usize].1 } else { 0 };
+    let pt = if pi >= 1 && pi <= len { at(&log, pi).map_or(0, |e| e.1) } else { 0 };
     let k = r.below(4);
     let mut ents = vec![];
     let mut conflict = false;
     for j in 0..k {
         let idx = pi + 1 + j;
-        match log.get((idx - 1) as usize) {
+        match at(&log, idx) {
             Some(e) if !conflict && (e.1 == cur || r.chance(1, 2)) => ents.push((e.1, e.2)),
             _ => {
                 conflict = true;
@@ -867,7 +921,7 @@ fn run_case(cx: &mut Ctx, r: &mut Rng, case_no: u64, max_crashes: usize, script:
     cx.m.ask("clear");
     cx.m.ask("drop_slots");
     cx.seen.clear();
-    cx.m.ask(&format!("node {SELF_ID}"));
+    cx.m.ask(&format!("node {SELF_ID} {}", TRAILING.load(std::sync::atomic::Ordering::Relaxed)));
     let mut lv = Live { node: mk_node(&path).expect("fresh wal") };
     let mut ghost = Ghost::default();
     let mut base_slot: usize = cx.m.ask("save").parse().unwrap_or(0);
@@ -987,6 +1041,11 @@ fn run_case(cx: &mut Ctx, r: &mut Rng, case_no: u64, max_crashes: usize, script:
                     }
                 }
                 Ev::Lead | Ev::PreStart => {}
+                Ev::Compact { .. } => {
+                    if log.len() < log_before.len() {
+                        cx.rep.hit("branch.compaction_drained");
+                    }
+                }
                 Ev::Snap { li, lt, ents, streaming } => {
                     let n = ents.len() as u64;
                     if reply == "snap:1" {
@@ -1023,14 +1082,15 @@ fn run_case(cx: &mut Ctx, r: &mut Rng, case_no: u64, max_crashes: usize, script:
             }
             let (voted_now, extra_now) = dump_fields(&lv.node);
             let imp = format!(
-                "recs={} reply={} state={}/{}/{}/{} {}",
+                "recs={} reply={} state={}/{}/{}/{} {} {}",
                 list_or_dash(&new_recs.iter().map(rec_tok).collect::<Vec<_>>()),
                 reply,
                 term,
                 voted_now,
                 role_tok(&lv.node),
                 log_tok(&log),
-                extra_now
+                extra_now,
+                base_tok(&log)
             );
             let line = if failing { ev.line().replacen("ev ", "evf ", 1) } else { ev.line() };
             let mo = cx.m.ask(&line);
@@ -1166,7 +1226,7 @@ fn run_case(cx: &mut Ctx, r: &mut Rng, case_no: u64, max_crashes: usize, script:
                     let term = rn.current_term();
                     let log = node_log(&rn);
                     let voted = probe_voted(&pn);
-                    let imp_node = format!("{}/{}/{}/{} {}", term, voted, role_tok(&rn), log_tok(&log), dump_fields(&rn).1);
+                    let imp_node = format!("{}/{}/{}/{} {} {}", term, voted, role_tok(&rn), log_tok(&log), dump_fields(&rn).1, base_tok(&log));
                     let hist = history.clone();
                     cx.rep.compare("cut.restart", || json!({"history": hist, "cut": n}), &imp_node, &mo_node);
                     for (kind, detail) in obl.check(term, &voted, &log) {
@@ -1811,6 +1871,7 @@ fn main() {
         "reply.walfail",
         "ev.start_pre_vote", "ev.pre_vote", "ev.timeout_now", "branch.election_by_prevote_quorum",
         "branch.election_by_timeout_now", "branch.leader_by_vote_quorum", "fail.prevote_response", "fail.timeout_now",
+        "ev.compact", "branch.compaction_drained",
     ]
     .iter()
     .map(|s| s.to_string())
@@ -1856,6 +1917,30 @@ fn main() {
             cx.thorough = thorough && i < 30;
             run_case(&mut cx, &mut r, 10_000 + i, 2, Some(script), "snapshot", &FailCfg::none());
         }
+        if std::env::var("C10_TIMES").is_ok() { eprintln!("before compact {:?}", t_all.elapsed()); }
+        // log compaction: small snapshot_trailing_logs, truncate_log events among the others (and some
+        // failing appends); directed script first
+        let mut r = root.fork("compact");
+        cx.thorough = false;
+        for i in 0..(if thorough { 200 } else { 8 }) {
+            let tr = r.below(3) as usize;
+            TRAILING.store(tr, std::sync::atomic::Ordering::Relaxed);
+            let script = if i == 0 {
+                TRAILING.store(1, std::sync::atomic::Ordering::Relaxed);
+                Some(vec![
+                    Ev::Ae { t: 1, l: 2, pi: 0, pt: 0, ents: vec![(1, 11), (1, 12), (1, 13), (1, 14), (1, 15)] },
+                    Ev::Compact { i: 4 },
+                    Ev::Ae { t: 2, l: 3, pi: 2, pt: 9, ents: vec![(2, 99)] },
+                    Ev::Ae { t: 2, l: 3, pi: 5, pt: 1, ents: vec![(2, 16)] },
+                    Ev::Compact { i: 9 },
+                    Ev::Ae { t: 2, l: 3, pi: 4, pt: 1, ents: vec![(2, 25), (2, 26)] },
+                ])
+            } else {
+                None
+            };
+            run_case(&mut cx, &mut r, 50_000 + i, 2, script, "compact", &FailCfg { scripted: vec![], prob: 8 });
+        }
+        TRAILING.store(100, std::sync::atomic::Ordering::Relaxed);
         if std::env::var("C10_TIMES").is_ok() { eprintln!("before fail {:?}", t_all.elapsed()); }
         cx.thorough = false;
         for i in 0..(if thorough { 300 } else { 8 }) {
